@@ -83,7 +83,7 @@ FO = GWM + 'GridWorld.functional_observation'
 ENV = ('with', GW0, {'_state': ('opt', 'State'), '_observation': ('opt', 'Observation')})
 
 
-@contract(target=IEM + 'InnerEnv.reset', args={'self': ENV}, stubs={FR: 'State', FO: 'Observation'}, props=['C04'])
+@contract(target=IEM + 'InnerEnv.reset', args={'self': ENV}, stubs={FR: 'State', FO: 'Observation'}, props=['C04', 'C20'])
 def env_reset(self):
     ensures('total', lambda: returned())
     ensures('state-from-functional-reset', lambda: ghost_calls(FR) == 1 and self._state is ghost_result(FR, 0))
@@ -91,7 +91,7 @@ def env_reset(self):
 
 
 @contract(target=IEM + 'InnerEnv.step', args={'self': ENV, 'action': 'Action'},
-          stubs={FS: ('tuple', ['State', 'float', 'bool']), FO: 'Observation'}, props=['C04'])
+          stubs={FS: ('tuple', ['State', 'float', 'bool']), FO: 'Observation'}, props=['C04', 'C20'])
 def env_step(self, action):
     st0 = old(self._state)
     ob0 = old(self._observation)
@@ -115,7 +115,7 @@ def env_state(self):
 
 
 @contract(target=IEM + 'InnerEnv.observation', args={'self': ENV}, stubs={FO: 'Observation', FS: None, FR: None},
-          props=['C04'])
+          props=['C04', 'C20'])
 def env_observation(self):
     st0 = old(self._state)
     ob0 = old(self._observation)
